@@ -54,6 +54,9 @@ ASSUMPTIONS = [
     '(exact in float32, which the library uses internally); metric@t only at listed thresholds',
     'Mean / MeanAndVariance / Var batches are non-empty; |values| <= 1e6; NaN is the only '
     'non-finite value; tolerance atol scales with max|x| (mean, total) or max|x|^2 (var)',
+    'when every value accumulated so far is NaN, Mean/MeanAndVariance keep their scalar '
+    'initial state (nan, count 0) for 2-D input; same values, scalar shape - accepted and '
+    'recorded as an observation, not compared',
     'MinMaxAndCount is fed non-negative values (max starts at 0), axis None or 0, '
     'batch_score_fn None or len',
     'Histogram / CalibrationHistogram: explicit range with int bins (or explicit edges); '
@@ -80,7 +83,8 @@ REQUIRED = [
     'stats_counter_cases', 'stats_calibration_cases', 'stats_value_checks',
     'stats_function_api_checks', 'misc_r2tjur_cases', 'misc_r2tjur_rel_cases',
     'misc_rreg_cases', 'misc_spd_cases', 'misc_text_cases', 'misc_mathutils_cases',
-    'misc_signal_cases', 'misc_value_checks',
+    'misc_signal_cases', 'misc_value_checks', 'retr_multibatch_checks',
+    'thr_multibatch_checks', 'stats_accumulator_checks', 'misc_accumulator_checks',
 ]
 EXHAUSTIVE = {'quick': False, 'thorough': False}
 CHUNK_TIMEOUT_S = {'quick': 240, 'thorough': 3000}
